@@ -112,6 +112,8 @@ def ckObs (progs : List String) (obs : String) : Option (String × String) :=
         let parts := c.splitOn "="
         (t, k, (parts.headD "").splitOn "+", parts.getD 1 ""))
   let allEvs := calls.flatMap fun (_, _, evs, _) => evs
+  if (obs.splitOn "LIVELOCK").length > 1 then
+    some ("C18", "a call kept making atomic operations without completing (it spins on another thread's progress)") else
   if calls.any (fun (_, k, evs, r) => k == "d" && (evs.any (· != "") || r != "D")) then
     some ("C18", "formatting the holder with Debug read the cell or the state (an unsynchronised read that can race with a set)") else
   -- (the numeric values of the states are the implementation's business: only ok / er matters here)
